@@ -415,6 +415,47 @@ def run(ctx):
     borrow(ctx, 'C11', ['BLOCK-RESTORE'], 'a header refresh that flushes the pending block of a block codec must put the codec counters back: otherwise the samples already accepted are overwritten by the next write and what is read back is not what was written')
 
 
+    ctx.rule('WIDTH-AGREE', 'AIFF-C DWVW: for every subformat arm, the sample width the open function hands to dwvw_init (what the data is encoded with) equals the width the header writer stores '
+             'for that subformat (what the reader will decode with): a copy of the neighbouring arm makes the file re-open as another DWVW width and decode to garbage', floor=3)
+    from engine.arms import switch_arm_stmts as _sas
+    E1 = prog.enums
+    ao, aw = prog.fn('aiff_open', 'aiff.c'), prog.fn('aiff_write_header', 'aiff.c')
+
+    def _arms(g):
+        out = {}
+        for sw in [n for n in g.walk() if n['k'] == 'SwitchStmt']:
+            for vals, names, dflt, stmts in _sas(g, sw):
+                for nm in names:
+                    if nm.startswith('SF_FORMAT_DWVW_'):
+                        out.setdefault(nm, []).extend(stmts)
+        return out
+    enc = {}
+    for nm, stmts in _arms(ao).items():
+        for st in stmts:
+            for c_ in ao.calls('dwvw_init', root=st):
+                v_ = ao.unwrap(ao.args(c_)[1]).get('v')
+                if v_ is not None:
+                    enc[nm] = v_
+    n_wa = 0
+    warms = _arms(aw)
+    # the variable that carries the width: the local that every DWVW arm sets to a small constant, not the same one in all arms
+    per = {nm: {} for nm in warms}
+    for nm, stmts in warms.items():
+        for st in stmts:
+            for lv_, a_, r_ in assigned_lvalues(aw, st):
+                v_ = aw.unwrap(r_).get('v') if r_ is not None else None
+                if v_ is not None and 1 <= v_ <= 64 and '->' not in lv_:
+                    per[nm].setdefault(lv_, []).append(v_)
+    wvars = [lv_ for lv_ in set().union(*[set(d_) for d_ in per.values()]) if all(lv_ in d_ for d_ in per.values()) and len({tuple(d_[lv_]) for d_ in per.values()}) > 1] if per else []
+    for nm, stmts in sorted(warms.items()):
+        ws = [v_ for lv_ in wvars for v_ in per[nm].get(lv_, [])][-1:]
+        if nm not in enc or not ws:
+            continue
+        n_wa += 1
+        ok = all(w_ == enc[nm] for w_ in ws)
+        ctx.ob('WIDTH-AGREE', nm, ok, aw.loc(stmts[0]), '%s: encoded with dwvw_init (psf, %d), header says %s' % (nm, enc[nm], ws) + ('' if ok else ' - the file re-opens as a different DWVW width'), None)
+    ctx.require(n_wa >= 3, 'only %d DWVW arms comparable between aiff_open and aiff_write_header' % n_wa)
+
 def varint_rule(ctx, prog, rule='VARINT'):
     """CAF 'pakt' table: variable-length packet sizes.  Each guarded arm `(value & M) == value` of alac_pakt_encode must have M = 2^(7n) - 1 and store
     n bytes, most significant 7-bit group first, continuation bit 0x80 on all but the last (lane proof for every value the guard admits)."""
